@@ -288,6 +288,68 @@ Qed.
 
 (* ------------------------------------------------------------------ the drain loop *)
 
+(* ---- the wait path (tickit_term_input_wait_msec with nothing arriving) *)
+Definition zsum (l : list Z) : Z := fold_right Z.add 0 l.
+
+(* the clause: a wait that returns because the CALLER's time-out expired leaves the pending
+   sequence and its deadline alone while that deadline has not passed *)
+Lemma twait_caller : forall m now ts d, t_deadline ts = Some d -> 0 <= m -> now + m * 1000 < d ->
+  twait false m now ts = Some (ts, now + m * 1000).
+Proof.
+  intros m now ts d Hd Hm Hlt. unfold twait, wait_left. rewrite Hd.
+  assert (E1 : (now <? d) = true) by (apply Z.ltb_lt; lia). rewrite E1.
+  assert (Hl : m + 1 <= (d - now + 999) / 1000) by (apply Z.div_le_lower_bound; lia).
+  assert (E2 : (-1 <? (d - now + 999) / 1000) = true) by (apply Z.ltb_lt; lia).
+  assert (E3 : (m =? -1) = false) by (apply Z.eqb_neq; lia).
+  assert (E4 : ((d - now + 999) / 1000 <? m) = false) by (apply Z.ltb_ge; lia).
+  rewrite E2, E3, E4. cbn [orb andb].
+  assert (E5 : (m <? 0) = false) by (apply Z.ltb_ge; lia). rewrite E5.
+  assert (E6 : (d <=? now + m * 1000) = false) by (apply Z.leb_gt; lia). rewrite E6. reflexivity.
+Qed.
+
+Lemma twait_idle : forall m now ts, t_deadline ts = None -> 0 <= m -> twait false m now ts = Some (ts, now + m * 1000).
+Proof.
+  intros m now ts Hd Hm. unfold twait, wait_left. rewrite Hd. cbn [andb].
+  assert (E5 : (m <? 0) = false) by (apply Z.ltb_ge; lia). change (-1 <? -1) with false. cbn [andb]. rewrite E5. reflexivity.
+Qed.
+
+(* when the sequence's own deadline is reached during the wait the time-out is forced (outside the model) *)
+Lemma twait_deadline : forall m now ts d, t_deadline ts = Some d -> now < d -> (m = -1 \/ d <= now + m * 1000) ->
+  twait false m now ts = None.
+Proof.
+  intros m now ts d Hd Hn Hm. unfold twait, wait_left. rewrite Hd.
+  assert (E1 : (now <? d) = true) by (apply Z.ltb_lt; lia). rewrite E1.
+  set (lf := (d - now + 999) / 1000).
+  assert (Hc : d - now <= lf * 1000).
+  { unfold lf. pose proof (Z.div_mod (d - now + 999) 1000 ltac:(lia)) as Hdm. pose proof (Z.mod_pos_bound (d - now + 999) 1000 ltac:(lia)). lia. }
+  assert (Hp : 0 < lf) by lia.
+  assert (E2 : (-1 <? lf) = true) by (apply Z.ltb_lt; lia). rewrite E2. cbn [andb].
+  destruct ((m =? -1) || (lf <? m)) eqn:Eo.
+  - assert (E5 : (lf <? 0) = false) by (apply Z.ltb_ge; lia). rewrite E5.
+    assert (E6 : (d <=? now + lf * 1000) = true) by (apply Z.leb_le; lia). rewrite E6. reflexivity.
+  - apply orb_false_iff in Eo. destruct Eo as [Em El]. apply Z.eqb_neq in Em. apply Z.ltb_ge in El.
+    destruct Hm as [Hm|Hm]; [contradiction|]. destruct (m <? 0); [reflexivity|].
+    assert (E6 : (d <=? now + m * 1000) = true) by (apply Z.leb_le; lia). rewrite E6. reflexivity.
+Qed.
+
+(* the pinned code forces a pending sequence at every wait that times out *)
+Lemma twait_pinned_forces : forall m now ts d, t_deadline ts = Some d -> twait true m now ts = None.
+Proof. intros m now ts d Hd. unfold twait. rewrite Hd. destruct (_ <? 0); reflexivity. Qed.
+
+Lemma twaits_ok : forall ws now ts, Forall (fun m => 0 <= m) ws ->
+  (forall d, t_deadline ts = Some d -> now + zsum ws * 1000 < d) ->
+  twaits false ws now ts = Some (ts, now + zsum ws * 1000).
+Proof.
+  induction ws as [|m r IH]; intros now ts Hp Hd; [cbn; f_equal; f_equal; lia|].
+  inversion Hp as [|? ? Hm Hr]; subst. cbn [twaits zsum fold_right] in *.
+  assert (Hs : 0 <= zsum r) by (clear - Hr; induction Hr; cbn [zsum fold_right]; [lia|unfold zsum in *; lia]).
+  assert (E : twait false m now ts = Some (ts, now + m * 1000)).
+  { destruct (t_deadline ts) as [d|] eqn:Ed; [apply (twait_caller m now ts d Ed Hm); specialize (Hd d eq_refl); unfold zsum in *; lia|apply twait_idle; assumption]. }
+  rewrite E. rewrite IH; [f_equal; f_equal; unfold zsum; lia|exact Hr|].
+  intros d Ed. specialize (Hd d Ed). unfold zsum in *. lia.
+Qed.
+
+
 Section Chunking.
 Variable tok : list Z -> tokres.
 
@@ -534,7 +596,51 @@ Proof.
   cbn [map fst] in *. rewrite (chunking_bounded (map fst steps) c (t_in ts) Hb) in H. exact H.
 Qed.
 
+(* ---- the wait path: chunks with waits of the caller that time out *)
+Lemma wtimed_run_chunks : forall ht steps now ts,
+  (forall c ws, In (c, ws) steps -> Forall (fun m => 0 <= m) ws /\ zsum ws * 1000 < wait) ->
+  (length (i_buf (t_in ts)) < cap)%nat -> 0 <= ht ->
+  match push_chunks tok cap (t_in ts) (map fst steps) with
+  | Some (evs, s') => exists d, wtimed_run tok cap wait false ht now ts steps = Some (evs, mkT s' d)
+  | None => wtimed_run tok cap wait false ht now ts steps = None
+  end.
+Proof.
+  intros ht. induction steps as [|[c ws] r IH]; intros now ts Hg Hb Hht.
+  - cbn [map push_chunks wtimed_run]. exists (t_deadline ts). destruct ts; reflexivity.
+  - cbn [map fst push_chunks wtimed_run]. unfold tpush.
+    destruct (push_bytes tok cap (t_in ts) c) as [[evs s1]|] eqn:Ep; [|reflexivity].
+    destruct (Hg c ws (or_introl eq_refl)) as [Hp Hs].
+    assert (Hb1 : (length (i_buf s1) < cap)%nat).
+    { rewrite push_bytes_upush in Ep by exact Hb. eapply upush_residue. exact Ep. }
+    set (now1 := now + ht * Z.of_nat (length evs)).
+    set (d1 := if i_armed s1 then Some (now1 + wait) else None).
+    rewrite (twaits_ok ws now1 (mkT s1 d1) Hp).
+    2:{ intros d Ed. cbn [t_deadline] in Ed. unfold d1 in Ed. destruct (i_armed s1); [|discriminate]. inversion Ed; subst. lia. }
+    specialize (IH (now1 + zsum ws * 1000) (mkT s1 d1)). cbn [t_in] in IH.
+    assert (Hg' : forall c0 ws0, In (c0, ws0) r -> Forall (fun m => 0 <= m) ws0 /\ zsum ws0 * 1000 < wait) by (intros c0 w0 Hin; apply (Hg c0 w0); right; exact Hin).
+    specialize (IH Hg' Hb1 Hht).
+    destruct (push_chunks tok cap s1 (map fst r)) as [[evs2 s2]|].
+    + destruct IH as [d E]. rewrite E. exists d. reflexivity.
+    + rewrite IH. reflexivity.
+Qed.
+
+(* C20_wait_chunking: fragments pushed with waits of the caller in between that time out -- each
+   group of waits shorter, together, than the wait time -- give the events of the whole stream *)
+Theorem wait_chunking : forall ht steps c ws now ts,
+  (forall c0 ws0, In (c0, ws0) ((c, ws) :: steps) -> Forall (fun m => 0 <= m) ws0 /\ zsum ws0 * 1000 < wait) ->
+  (length (i_buf (t_in ts)) < cap)%nat -> 0 <= ht ->
+  match push_bytes tok cap (t_in ts) (concat (map fst ((c, ws) :: steps))) with
+  | Some (evs, s') => exists d, wtimed_run tok cap wait false ht now ts ((c, ws) :: steps) = Some (evs, mkT s' d)
+  | None => wtimed_run tok cap wait false ht now ts ((c, ws) :: steps) = None
+  end.
+Proof.
+  intros ht steps c ws now ts Hg Hb Hht.
+  pose proof (wtimed_run_chunks ht ((c, ws) :: steps) now ts Hg Hb Hht) as H.
+  cbn [map fst] in *. rewrite (chunking_bounded (map fst steps) c (t_in ts) Hb) in H. exact H.
+Qed.
+
 End Chunking.
+
 
 (* every event of a mouse key carries the key's position minus one *)
 Lemma fanout_events : forall f b held mk evs h, fanout f b held mk = Some (evs, h) ->
@@ -658,3 +764,23 @@ Lemma early_timestamp_refuted :
   timed_run esc_tok 256 50000 false false 70000 0 tst0 [([97; 27], 0); ([91; 65], 0)] =
     Some ([EvKey KEYEV_TEXT 0 [97]; EvKey KEYEV_KEY 0 [85; 112]], [50; -1], mkT (mkI [] 0 false) None).
 Proof. split; vm_compute; reflexivity. Qed.
+
+(* the pinned wait path: a lone ESC, then three waits of 10 ms each that time out (the caller's
+   time-outs; 30 ms < the 50 ms wait time), then the rest of the sequence: the pinned code forces
+   the ESC at the first wait (None: outside the model), the repaired code decodes the key *)
+Lemma wait_forces_refuted :
+  wtimed_run esc_tok 256 50000 true 0 0 tst0 [([27], [10; 10; 10]); ([91; 65], [])] = None /\
+  wtimed_run esc_tok 256 50000 false 0 0 tst0 [([27], [10; 10; 10]); ([91; 65], [])] =
+    Some ([EvKey KEYEV_KEY 0 [85; 112]], mkT (mkI [] 0 false) None).
+Proof. split; vm_compute; reflexivity. Qed.
+
+(* tickit_term_input_wait_tv: the milliseconds handed on are those of the timeval (rounded down);
+   the pinned conversion turns 2 s into 2 ms *)
+Lemma wait_tv_exact : forall sec usec, 0 <= usec < 1000000 ->
+  wait_tv_msec false sec usec * 1000 <= sec * 1000000 + usec < (wait_tv_msec false sec usec + 1) * 1000.
+Proof.
+  intros sec usec H. unfold wait_tv_msec. pose proof (Z.div_mod usec 1000 ltac:(lia)). pose proof (Z.mod_pos_bound usec 1000 ltac:(lia)). lia.
+Qed.
+Lemma wait_tv_refuted : wait_tv_msec true 2 0 = 2 /\ wait_tv_msec false 2 0 = 2000.
+Proof. split; reflexivity. Qed.
+
